@@ -102,7 +102,10 @@ def apply_edit(d, file, old, new, count=1):
 def check_variant(d, props, worker=0, keep_facts=True):
     """Extract facts for scratch tree d and run the given properties. Returns dict prop -> result."""
     from . import engine
+    pre = set(os.listdir(os.path.join(extract.CACHE, "facts"))) if os.path.isdir(os.path.join(extract.CACHE, "facts")) else set()
     fd = extract.facts_dir(repo=d, target=worker_target(worker))
+    if os.path.basename(fd.rstrip("/")) in pre:
+        keep_facts = True     # somebody else's cache entry (a selftest with the same tree): not ours to delete
     facts = Facts(fd)
     lost = list(facts.lib.j.get("skipped") or []) + list(facts.bin.j.get("skipped") or [])
     if lost:
